@@ -159,4 +159,22 @@ def variants(trees):
     t = copy.deepcopy(vt)
     t["menu"] = {"page_size": 9, "alternative_select_keys": ",./;", "alternative_select_labels": ["x"]}
     out.append(("vt", "variant:menu:punct-select-keys", t))
+    # round 4: ragged switch definitions - labels of another type at the first / a later position of every toggle and radio group,
+    # label lists shorter or longer than the options, an option list with a non-scalar entry, a radio group of one option, two
+    # radio groups in a row (the switcher's menu, state labels and the key binder's toggle all read them)
+    for pos, repl, name in ((0, ["x"], "first-label-list"), (1, {"x": "y"}, "second-label-map"), (0, None, "first-label-null"),
+                            (0, "", "first-label-empty")):
+        t = copy.deepcopy(vt)
+        for sw in t.get("switches", []):
+            if isinstance(sw, dict) and isinstance(sw.get("states"), list) and len(sw["states"]) > pos:
+                sw["states"][pos] = copy.deepcopy(repl)
+        out.append(("vt", "variant:switches:" + name, t))
+    t = copy.deepcopy(vt)
+    t["switches"] = [{"options": ["zh_trad", "zh_simp", "zh_tw"], "states": [["x"], "简化"], "abbrev": ["繁"]},
+                     {"options": ["opt_a"], "states": ["甲", "乙", "丙"]},
+                     {"options": ["opt_b", ["x"], "opt_c"], "states": [None, "B", "C"], "reset": 2},
+                     {"name": "ascii_mode", "states": ["中文"], "reset": 1},
+                     {"name": "full_shape", "states": [], "abbrev": ["半", "全"]},
+                     {"options": [], "states": []}]
+    out.append(("vt", "variant:switches:ragged-groups", t))
     return out
